@@ -29,8 +29,18 @@ func getAllOldAccountVestingPoolsAndDelete(store sdk.KVStore, cdc codec.BinaryCo
 	return
 }
 
+// canonicalAddress returns the canonical spelling of a bech32 address (an upper-case string names the same account;
+// pools and traces are looked up under the canonical spelling); anything that does not parse is kept as it is.
+func canonicalAddress(address string) string {
+	if accAddress, err := sdk.AccAddressFromBech32(address); err == nil {
+		return accAddress.String()
+	}
+	return address
+}
+
 func setNewAccountVestingPools(store sdk.KVStore, cdc codec.BinaryCodec, oldAccPools []v2.AccountVestingPools) error {
 	prefixStore := prefix.NewStore(store, types.AccountVestingPoolsKeyPrefix)
+	migrated := map[string][]*types.VestingPool{}
 	for _, oldAccPool := range oldAccPools {
 		oldPools := oldAccPool.VestingPools
 		var newPools []*types.VestingPool
@@ -48,9 +58,12 @@ func setNewAccountVestingPools(store sdk.KVStore, cdc codec.BinaryCodec, oldAccP
 			newPools = append(newPools, &newPool)
 		}
 
+		owner := canonicalAddress(oldAccPool.Address)
+		// the old store may know one owner under two spellings: keep the pools of both
+		migrated[owner] = append(migrated[owner], newPools...)
 		newAccPool := types.AccountVestingPools{
-			Owner:        oldAccPool.Address,
-			VestingPools: newPools,
+			Owner:        owner,
+			VestingPools: migrated[owner],
 		}
 		av, err := cdc.Marshal(&newAccPool)
 		if err != nil {
@@ -114,7 +127,7 @@ func setNewVestingAccountAccountTraces(store sdk.KVStore, cdc codec.BinaryCodec,
 	for _, oldVestingAccounntTrace := range oldVestingAccounntTraces {
 		vestingAccountTrace := types.VestingAccountTrace{
 			Id:                 oldVestingAccounntTrace.Id,
-			Address:            oldVestingAccounntTrace.Address,
+			Address:            canonicalAddress(oldVestingAccounntTrace.Address),
 			Genesis:            false,
 			FromGenesisPool:    false,
 			FromGenesisAccount: false,
